@@ -240,7 +240,7 @@ def evaluate_histories(ctx, graphs):
         fixed = g.get("_history")
         g = {k: v for k, v in g.items() if k not in ("_setups", "_history")}
         jobs.append((g, fixed or gen_history(ctx.rng, g, c13.Resolved(g))))
-    impl = parallel_map(in_child_history, jobs, workers=6)
+    impl = parallel_map(in_child_history, jobs, workers=4)
     answers = ctx.lean.ask_many([history_request(g, h) for g, h in jobs])
     for (g, h), io_, ans in zip(jobs, impl, answers):
         if "bad-op" in ans:
@@ -466,7 +466,7 @@ def evaluate(ctx, graphs, per_graph=18, all_cases=False):
             cases = gen_cases(ctx.rng, g, per_graph)
         jobs.append((g, cases))
     flat = [(g, c) for g, cases in jobs for c in cases]
-    impl = parallel_map(in_child_job, flat, workers=6)
+    impl = parallel_map(in_child_job, flat, workers=4)
     answers = ctx.lean.ask_many([model_request(g, cases) for g, cases in jobs])
     k = 0
     for (g, cases), ans in zip(jobs, answers):
